@@ -41,6 +41,18 @@ set_option maxRecDepth 1000000 in
 /-- Go-level wiring read by the hook: every slot is bound to the Go function the generator input names -/
 theorem binds_eq_model : Spec.stripUser user dump.binds = Model.bindTable := by decide +kernel
 
+set_option maxRecDepth 1000000 in
+/-- hook facts: every §15 object has the class field, internal-method table and value type of the model -/
+theorem self_kinds_eq_model : ∀ o ∈ Owner.all, Spec.lookup dump.kinds o "@self" = some (Model.selfKind o) := by decide +kernel
+
+set_option maxRecDepth 1000000 in
+/-- arrays, String objects and arguments objects the language creates behave as ES5 15.4.5 / 15.5.5 / 10.6 say -/
+theorem behaviours_eq_model : ∀ kv ∈ Model.behaviours, Spec.assoc kv.1 dump.behaviours = some kv.2 := by decide +kernel
+
+set_option maxRecDepth 1000000 in
+/-- … and so has every object-valued slot -/
+theorem kinds_eq_model : Spec.stripUser user dump.kinds = Model.kindTable := by decide +kernel
+
 /-! corollaries: the property for this configuration -/
 
 /-- every (owner, property) of ES5 §15 outside the deviation regions has exactly the specified shape -/
